@@ -47,6 +47,9 @@ use core::fmt;
 use core::fmt::Debug;
 use core::time::Duration;
 use moka::future::Cache;
+#[cfg(feature = "verif-hooks")]
+use super::verif_clock::Instant;
+#[cfg(not(feature = "verif-hooks"))]
 use std::time::Instant;
 
 //----------- Config ---------------------------------------------------------
